@@ -39,6 +39,101 @@ def run(fx, rep, tier):
     rule_stopflag(fx, rep, ex, arms)
     rule_limit(fx, rep)
     rule_panic(fx, rep, ex)
+    rule_latch(fx, rep)
+    rule_goargs(fx, rep)
+
+
+# ---- C05-GOARGS ----------------------------------------------------------------------------
+
+
+def rule_goargs(fx, rep):
+    """A `go` line that does not parse is reported as an unknown command and never answered with a bestmove. GUIs do send
+    negative clock values (a side that has overstepped its time), so the time arguments of `go` must be read with a parser
+    that accepts a sign (and clamped afterwards, which C14 checks); an unsigned number parser turns such a line into an
+    unanswered command (seed C05-7b)."""
+    cgs = fx.find("parser::cmd_go")
+    if len(cgs) != 1:
+        rep.rule("C05-GOARGS", 0, 0, True, "go parser not found: not decided")
+        return
+    cg = cgs[0]
+    ok = True
+    n = 0
+    for bb, t in cg.calls():
+        if not norm(callee_name(t) or "").endswith("parser::command_with_argument") or len(t["args"]) < 2:
+            continue
+        tok = next((const_str_of(a) for a in t["args"] if a.get("k") == "const" and const_str_of(a)), None)
+        if tok not in ("wtime", "btime"):
+            continue
+        pf = t["args"][1].get("fn") if t["args"][1].get("k") == "const" else None
+        if not pf or "nom::character::complete::" not in pf:
+            rep.notes.append(f"C05-GOARGS: the `{tok}` argument is read by `{pf}`, not by one of nom's number parsers; not decided")
+            continue
+        n += 1
+        good = pf.split("::")[-1] in ("i8", "i16", "i32", "i64", "i128")
+        rep.obligation(good)
+        if not good:
+            ok = False
+            rep.violation("C05-GOARGS", f"C05-GOARGS/{tok}", f"`go {tok} <n>` is read with `{pf}`, which rejects a negative number: a `go` carrying a negative clock value (sent by GUIs once a side has overstepped its time) is then an unknown command and is never answered with a bestmove",
+                          {"fn": cg.name, "file": cg.file, "line": t.get("line")})
+    rep.rule("C05-GOARGS", n, 0, ok, "time arguments of go accept a sign")
+
+
+def const_str_of(o):
+    from facts import const_str
+    return const_str(o)
+
+
+# ---- C05-LATCH -----------------------------------------------------------------------------
+
+
+def _self_field_name(e):
+    d = deep_strip(e)
+    while isinstance(d, tuple) and d and d[0] in ("ref", "deref"):
+        d = deep_strip(d[1])
+    if isinstance(d, tuple) and d and d[0] == "field" and deep_strip(d[1])[:2] == ("arg", 1):
+        return d[2]
+    return None
+
+
+def rule_latch(fx, rep):
+    """The completion latch is a monitor: `wait()` tests the state and goes to sleep on the condition variable atomically only
+    with respect to threads that hold the *same mutex*. A method that changes the state and notifies without taking that mutex
+    can run between the waiter's test and its enqueue - the notification is lost and `stop` sleeps forever (seed C05-7a: the
+    flag kept in an AtomicBool, set() = store + notify_all without the lock). Every LockLatch method that notifies the
+    condition variable must have locked the mutex the waiter waits with, on every path to the notify."""
+    bodies = [b for b in fx.fn_bodies() if norm(b.name).startswith("engine::util::sync::LockLatch::") and b.kind == "AssocFn"]
+    waits = [(b, bb, t) for b in bodies for bb, t in b.calls() if norm(callee_name(t) or "").endswith("Condvar::wait") or norm(callee_name(t) or "").endswith("Condvar::wait_while")]
+    if not waits:
+        rep.notes.append("C05-LATCH: LockLatch does not wait on a condition variable in a recognisable form; clause not decided")
+        rep.rule("C05-LATCH", 0, 0, True, "not decided")
+        return
+    wb, wbb, wt = waits[0]
+    cv = _self_field_name(wb.expr(wt["args"][0], expand_named=True, at=wbb))
+    locks = find_calls(wb.expr(wt["args"][1], expand_named=True, at=wbb), "Mutex::lock")
+    if not locks:
+        locks = [("call", "Mutex::lock", (wb.expr(t["args"][0], expand_named=True, at=bb),)) for bb, t in wb.calls() if norm(callee_name(t) or "").endswith("Mutex::lock")]
+    mx = _self_field_name(locks[0][2][0]) if locks else None
+    ok = True
+    n = 0
+    if cv is None or mx is None:
+        rep.notes.append("C05-LATCH: the mutex / condition variable pair of LockLatch::wait could not be identified; clause not decided")
+        rep.rule("C05-LATCH", 0, 0, True, "not decided")
+        return
+    for b in bodies:
+        for bb, t in b.calls():
+            cn = norm(callee_name(t) or "")
+            if not (cn.endswith("Condvar::notify_all") or cn.endswith("Condvar::notify_one")) or _self_field_name(b.expr(t["args"][0], expand_named=True, at=bb)) != cv:
+                continue
+            n += 1
+            lk = [lb for lb, lt in b.calls() if norm(callee_name(lt) or "").endswith("Mutex::lock") and _self_field_name(b.expr(lt["args"][0], expand_named=True, at=lb)) == mx]
+            good = any(b.block_dominates(lb, bb) and lb != bb for lb in lk)
+            rep.obligation(good)
+            rep.sample({"rule": "C05-LATCH", "method": norm(b.name).split("::")[-1], "locks_waiters_mutex_before_notify": good})
+            if not good:
+                ok = False
+                rep.violation("C05-LATCH", f"C05-LATCH/{norm(b.name).split('::')[-1]}", f"`{b.name}` notifies `{cv}` without having locked `{mx}`, the mutex `wait()` sleeps with: a change made between the waiter's test and its enqueue is not seen and its notification is lost, so the waiter (the `stop` handler) sleeps forever",
+                              {"fn": b.name, "file": b.file, "line": t.get("line")})
+    rep.rule("C05-LATCH", n, 1, ok, "latch methods notify only while holding the waiter's mutex")
 
 
 # ---- C05-PANIC -----------------------------------------------------------------------------
@@ -880,6 +975,16 @@ def rule_noblock(fx, rep, ex, arms, names=("IsReady", "Quit", "Position", "Debug
 
 U = "src/engine/uci/mod.rs"
 MUTANTS = [
+    {"name": "clock arguments of go parsed as unsigned numbers (seed C05-7b)", "expect": "C05-GOARGS/wtime",
+     "edits": [("src/engine/uci/parser.rs", "command_with_argument(\"wtime\", nom::character::complete::i64, |wtime| {\n                    GoCmdArgumentsModifyFn::new(move |acc: &mut GoCmdArguments| {\n                        acc.wtime = Some(parse_duration(wtime));",
+                "command_with_argument(\"wtime\", nom::character::complete::u32, |wtime| {\n                    GoCmdArgumentsModifyFn::new(move |acc: &mut GoCmdArguments| {\n                        acc.wtime = Some(parse_duration(i64::from(wtime)));")]},
+    {"name": "latch state in an AtomicBool, set() notifies without the lock (seed C05-7a)", "expect": "C05-LATCH/set",
+     "edits": [("src/engine/util/sync.rs", "use std::sync::{Condvar, Mutex};", "use std::sync::atomic::{AtomicBool, Ordering};\nuse std::sync::{Condvar, Mutex};"),
+               ("src/engine/util/sync.rs", "    m: Mutex<bool>,\n", "    set: AtomicBool,\n    m: Mutex<()>,\n"),
+               ("src/engine/util/sync.rs", "            m: Mutex::new(false),\n", "            set: AtomicBool::new(false),\n            m: Mutex::new(()),\n"),
+               ("src/engine/util/sync.rs", "        while !*guard {", "        while !self.set.load(Ordering::Acquire) {"),
+               ("src/engine/util/sync.rs", "        *self.m.lock().unwrap() = true;", "        self.set.store(true, Ordering::Release);"),
+               ("src/engine/util/sync.rs", "        *self.m.lock().unwrap() = false;", "        self.set.store(false, Ordering::Release);")]},
     {"name": "stop written with take(): waits on the latch even when no handle was installed", "expect": "C05-TS/wait",
      "edits": [("src/engine/uci/mod.rs", "                if let Some(c) = self.control.as_mut() {\n                    c.stop();\n                    self.is_stopped.wait();\n                }\n\n                self.control = None;", "                if let Some(c) = self.control.take() {\n                    c.stop();\n                }\n                self.is_stopped.wait();")]},
     {"name": "benign: stop written with take() and let-else", "benign": True,
